@@ -64,7 +64,7 @@ def verifier_trace(spec, tier, variant, obligation, timeout=600):
         shutil.rmtree(workdir, ignore_errors=True)
 
 
-def record_violation(prop, r, f, spec, tier):
+def record_violation(prop, r, f, spec, tier, full=True):
     """Write replay file; return (path, confirmed_by_native_replay)."""
     d = os.path.join(REPLAY, prop)
     os.makedirs(d, exist_ok=True)
@@ -76,7 +76,9 @@ def record_violation(prop, r, f, spec, tier):
                function_under_contract=spec['enforce'] if spec else None,
                native_replay=None, verifier_output=None)
     confirmed = False
-    if spec is not None and f.get('name') and r['unit'] != 'statics':
+    if not full:
+        rec['verifier_output'] = 'FAILURE reported by cbmc for this obligation (replay budget of this run used by earlier obligations of the same unit: VF_REPLAY_BUDGET)'
+    elif spec is not None and f.get('name') and r['unit'] != 'statics':
         try:
             rec['verifier_output'] = verifier_trace(spec, tier, r.get('variant'), f['name'])
         except Exception as e:  # never let trace extraction mask the violation itself
